@@ -52,7 +52,7 @@ TRACE = _Trace()
 
 
 class Universe:
-    def __init__(self, spec, mode="sut", upto_chunks=1, twin_dialect=None):
+    def __init__(self, spec, mode="sut", upto_chunks=1, twin_dialect=None, ready=None):
         """mode 'sut': chunk 0 defined now, later chunks via define().
         mode 'ref': eager twin — lazy_compilation stripped, all classes of the
         first `upto_chunks` chunks defined at once in the most eager order."""
@@ -74,6 +74,9 @@ class Universe:
                  self.aux.__dict__)
             self.mod.AUX = self.aux
         self._exec(F.render_prelude(spec) + TRACE_SRC)
+        if spec.get("flaky"):
+            # user callbacks fail until the history's 'heal' event
+            self.mod._READY[0] = bool(ready) if ready is not None else False
         self.defined.update(n for n, c in self.fam.classes.items() if c.get("kind") == "nt")
         if mode == "ref":
             classes = F.twin_order(spec, upto_chunks)
